@@ -73,7 +73,7 @@ def array_pool(pool, h, w, tier):
             elif variant == "wide-longer":
                 out.append(fs("\u4f60\u597d"[:(w - 1) // 2]))         # the same line extended by another one
             elif variant == "accent":
-                out.append(fs("e\u0301"))
+                out.append(fs("e\u0301"[:w - 1]))                 # fewer code points than columns (the window counts len(line))
             elif variant == "accent-longer":
                 out.append(fs("e\u0301x"[:w - 1]))
             elif variant == "padded":
